@@ -9,7 +9,7 @@ import pulsarbat as pb
 from harness.common import qlit, zlit, optlit, listlit
 from harness import exact as X
 
-VFILES = ['Lib/PySlice.v', 'Gen/GenConsts.v', 'Model/Band.v', 'Proofs/BandProofs.v', 'Props/C02.v']
+VFILES = ['Lib/PySlice.v', 'Gen/GenConsts.v', 'Model/Band.v', 'Proofs/BandProofs.v', 'Gen/GenBand.v', 'Proofs/BandGen.v', 'Props/C02.v']
 ALIGN = {'bottom': 0, 'center': 1, 'top': 2}
 
 HEADER = '''From Coq Require Import ZArith QArith List. Import ListNotations. Open Scope Z_scope.
